@@ -84,3 +84,6 @@ def run(ctx, proofs_ok):
         {"label": "string/keyspace commands over the network protocol, with transactions on a second connection", "fams": ["strings", "strings", "keyspace", "tx"],
          "n": (1200, 5000), "count": (2, 12), "conns": 2},
     ], extra=[("reading commands queued after writes inside MULTI see the state at EXEC time", multi_reads())], corpus=False)
+    # a second oracle that owes nothing to the model: the documented Redis semantics (bin/refredis.py)
+    from checks import refcheck
+    refcheck.run(ctx, "ssk", "strings and keyspace against the reference implementation of the documented semantics")
